@@ -1065,6 +1065,54 @@ def _wait_ready_part(e: Engine, rep: Report, due_kind):
             continue
         ap = path_of(a, n.frame) if isinstance(a, ast.Name) else None
         defs = common.reaching_defs(g, n, ap) if ap else []
+        # `should_wait, timeout = self._wake_timeout(now)`: one case per
+        # return of the helper, judged where the helper decided; returns
+        # whose other elements contradict what is known at the wait (the
+        # flag tested in front of it) do not reach it
+        tup = [d for d in defs if d is not None and
+               isinstance(d.ast, ast.Assign) and
+               len(d.ast.targets) == 1 and
+               isinstance(d.ast.targets[0], (ast.Tuple, ast.List)) and
+               isinstance(d.ast.value, ast.Call)]
+        if ap and defs and len(tup) == len(defs) == 1:
+            d = tup[0]
+            tg = d.ast.targets[0]
+            idx = [k for k, t in enumerate(tg.elts)
+                   if path_of(t, d.frame) == ap]
+            vals = common.values_of(g, d.ast.value, d.frame)
+            if idx and vals and not (len(vals) == 1 and
+                                     vals[0][0] is d.ast.value) and all(
+                    isinstance(v, ast.Tuple) and len(v.elts) == len(tg.elts)
+                    for v, _f in vals):
+                stn = fx.at(n) or frozenset()
+                for v, vf in vals:
+                    dead = False
+                    for k, t in enumerate(tg.elts):
+                        if k == idx[0] or not isinstance(
+                                v.elts[k], ast.Constant):
+                            continue
+                        tp = path_of(t, d.frame)
+                        truth = bool(v.elts[k].value)
+                        if (holds(stn, (True, tp)) and not truth) or \
+                                (holds(stn, (False, tp)) and truth):
+                            dead = True
+                    if dead:
+                        continue
+                    rs = [r for r in g.of_kind('stmt')
+                          if isinstance(r.ast, ast.Return) and
+                          r.ast.value is v]
+                    site0 = rs[0] if rs else n
+                    x = v.elts[idx[0]]
+                    if isinstance(x, ast.Constant) and x.value is None:
+                        cases.append((n, None, site0))
+                    else:
+                        if isinstance(x, ast.BinOp) and \
+                                isinstance(x.right, ast.Name):
+                            r2, _rf = common.deref(x.right, vf)
+                            if r2 is not x.right:
+                                x = ast.BinOp(left=x.left, op=x.op, right=r2)
+                        cases.append((n, x, site0))
+                continue
         if ap and defs and all(
                 d is not None and isinstance(d.ast, ast.Assign) and
                 isinstance(d.ast.targets[0], ast.Name) for d in defs):
